@@ -27,6 +27,9 @@ import (
 	authtypes "github.com/cosmos/cosmos-sdk/x/auth/types"
 	banktypes "github.com/cosmos/cosmos-sdk/x/bank/types"
 	distrtypes "github.com/cosmos/cosmos-sdk/x/distribution/types"
+	transfertypes "github.com/cosmos/ibc-go/v3/modules/apps/transfer/types"
+	clienttypes "github.com/cosmos/ibc-go/v3/modules/core/02-client/types"
+	channeltypes "github.com/cosmos/ibc-go/v3/modules/core/04-channel/types"
 	"github.com/ethereum/go-ethereum/common"
 	"github.com/ethereum/go-ethereum/crypto"
 	tmproto "github.com/tendermint/tendermint/proto/tendermint/types"
@@ -74,6 +77,7 @@ type Step struct {
 	Receiver string `json:"receiver,omitempty"`
 	Contract string `json:"contract,omitempty"`
 	Via      string `json:"via,omitempty"` // "tx" (BaseApp.DeliverTx, signed) or "server" (msg-service handler)
+	Channel  string `json:"channel,omitempty"` // ibc_recv: destination channel of the ICS-20 packet (default channel-0)
 }
 
 type Spec struct {
@@ -109,6 +113,7 @@ type TokenObs struct {
 	Owner    string   `json:"owner"` // role holder (deployer), 40 hex digits
 	Total    string   `json:"total"` // totalSupply() as reported ("" when the call fails)
 	Bals     []string `json:"bals"`  // balanceOf(holder) as reported, per tracked address ("" when the call fails)
+	Allow    [][3]string `json:"allow,omitempty"` // kinds 1-2: owner hex, spender hex, allowance() as reported, for every pair an approval was attempted on
 	Ledger   []string `json:"ledger,omitempty"` // AdvToken: raw storage slot of each tracked address
 	Cfg      []string `json:"cfg,omitempty"`    // AdvToken: configuration slots 0..9
 }
@@ -146,6 +151,9 @@ type StepRes struct {
 	TokAddr     string `json:"tok_addr,omitempty"`
 	FromHex     string `json:"from_hex,omitempty"`
 	ToHex       string `json:"to_hex,omitempty"`
+	OwnerHex    string `json:"owner_hex,omitempty"` // tok_transfer_from / tok_burn_from: the holder whose allowance is used
+	TokKind     int    `json:"tok_kind,omitempty"`
+	HookOK      bool   `json:"hook_ok,omitempty"` // ibc_recv: the packet decodes (amount parses, receiver has 20 bytes)
 	Obs         Obs    `json:"obs"`
 }
 
@@ -170,6 +178,16 @@ type token struct {
 	addr  common.Address
 	kind  int
 	owner common.Address
+	pairs [][2]common.Address // (owner, spender) pairs whose allowance is observed
+}
+
+func (t *token) track(o, sp common.Address) {
+	for _, p := range t.pairs {
+		if p[0] == o && p[1] == sp {
+			return
+		}
+	}
+	t.pairs = append(t.pairs, [2]common.Address{o, sp})
 }
 
 type world struct {
@@ -420,6 +438,11 @@ func (w *world) observe() Obs {
 		for _, r := range w.order {
 			to.Bals = append(to.Bals, w.view(ctx, t.addr, "balanceOf", w.refs[r]))
 		}
+		if t.kind == kindModule || t.kind == kindStd {
+			for _, p := range t.pairs {
+				to.Allow = append(to.Allow, [3]string{hex40(p[0]), hex40(p[1]), w.view(ctx, t.addr, "allowance", p[0], p[1])})
+			}
+		}
 		if t.kind == kindAdv {
 			for _, r := range w.order {
 				v := a.EvmKeeper.GetState(ctx, t.addr, common.BytesToHash(w.refs[r].Bytes()))
@@ -607,7 +630,7 @@ func (w *world) run(st Step) StepRes {
 	r := StepRes{Op: st.Op, Tok: st.Tok, Via: st.Via}
 	a := w.app
 	if t := w.tok(st.Tok); t != nil {
-		r.TokAddr = hex40(t.addr)
+		r.TokAddr, r.TokKind = hex40(t.addr), t.kind
 	}
 	switch st.Op {
 	case "fund": // mint coins to an address (set-up)
@@ -664,7 +687,10 @@ func (w *world) run(st Step) StepRes {
 					return errors.New("too many adv tokens")
 				}
 				addr = advAddrs[n]
-				a.SetEVMCode(ctx, addr, advTokenCode())
+				// one trailing (unreachable) byte makes the code of every instance distinct: ethermint v0.13.0 stores
+				// code by hash and DeleteAccount (SELFDESTRUCT) removes it for EVERY account sharing that hash, so
+				// killing one instance would silently strip the others of their code (IsContract stays true)
+				a.SetEVMCode(ctx, addr, append(advTokenCode(), byte(n+1)))
 				return nil
 			case kindStd, kindDelayed, kindManip:
 				var data []byte
@@ -831,6 +857,70 @@ func (w *world) run(st Step) StepRes {
 			}
 			return w.evmCall(ctx, from, &t.addr, data)
 		})
+	case "tok_approve", "tok_inc_allow", "tok_dec_allow": // environment: a holder manages an allowance
+		t := w.tok(st.Tok)
+		from, _ := w.resolveAddr(w.rich(st.From, t, ""))
+		sp, _ := w.resolveAddr(st.To)
+		amt := symAmount(st.Amount, w.tokBal(t, from))
+		if strings.HasPrefix(amt, "-") {
+			amt = "0"
+		}
+		r.FromHex, r.ToHex, r.Amount = hex40(from), hex40(sp), amt
+		if t != nil {
+			t.track(from, sp)
+		}
+		r.Class, r.Err = w.apply(func(ctx sdk.Context) error {
+			if t == nil {
+				return errors.New("no such token")
+			}
+			method := map[string]string{"tok_approve": "approve", "tok_inc_allow": "increaseAllowance", "tok_dec_allow": "decreaseAllowance"}[st.Op]
+			data, err := erc20ABI.Pack(method, sp, amountOf(amt).BigInt())
+			if err != nil {
+				return err
+			}
+			return w.evmCall(ctx, from, &t.addr, data)
+		})
+	case "tok_transfer_from", "tok_burn_from": // environment: a spender uses an allowance
+		t := w.tok(st.Tok)
+		from, _ := w.resolveAddr(st.From)
+		owner, _ := w.resolveAddr(w.rich(st.Sender, t, ""))
+		to, _ := w.resolveAddr(st.To)
+		amt := st.Amount
+		if amt == "allow" || amt == "allow+1" {
+			cur, _ := new(big.Int).SetString(w.view(w.ctx(), t.addr, "allowance", owner, from), 10)
+			if cur == nil {
+				cur = big.NewInt(0)
+			}
+			if amt == "allow+1" && cur.BitLen() < 256 { // (an infinite allowance cannot be exceeded)
+				cur.Add(cur, big.NewInt(1))
+			}
+			amt = cur.String()
+		} else {
+			amt = symAmount(st.Amount, w.tokBal(t, owner))
+		}
+		if strings.HasPrefix(amt, "-") {
+			amt = "0"
+		}
+		r.FromHex, r.OwnerHex, r.ToHex, r.Amount = hex40(from), hex40(owner), hex40(to), amt
+		if t != nil {
+			t.track(owner, from)
+		}
+		r.Class, r.Err = w.apply(func(ctx sdk.Context) error {
+			if t == nil {
+				return errors.New("no such token")
+			}
+			var data []byte
+			var err error
+			if st.Op == "tok_transfer_from" {
+				data, err = erc20ABI.Pack("transferFrom", owner, to, amountOf(amt).BigInt())
+			} else {
+				data, err = erc20ABI.Pack("burnFrom", owner, amountOf(amt).BigInt())
+			}
+			if err != nil {
+				return err
+			}
+			return w.evmCall(ctx, from, &t.addr, data)
+		})
 	case "convert_coin":
 		denom := w.denomString(st.Denom)
 		sref := w.rich(st.Sender, nil, denom)
@@ -876,6 +966,61 @@ func (w *world) run(st Step) StepRes {
 		} else {
 			r.Via = "server"
 			r.Class, r.Err = w.serverCall(msg)
+		}
+	case "ibc_recv":
+		// Keeper.OnRecvPacket (the ICS-20 middleware hook) with a real packet, in the context of the enclosing
+		// transaction: a branch of the deliver state that is written unless the hook panics.  The vouchers were
+		// credited before by a "fund" step (what the transfer application does right before the hook runs).
+		channel := st.Channel
+		if channel == "" {
+			channel = "channel-0"
+		}
+		hookDenom, _ := aggtypes.IBCDenom("transfer", channel, st.Denom)
+		recvStr := st.Receiver
+		switch {
+		case st.Receiver == "@long": // a 32-byte address (interchain account style)
+			recvStr = sdk.AccAddress(append(make([]byte, 12), w.users[1].addr.Bytes()...)).String()
+		case strings.HasPrefix(st.Receiver, "@"):
+			recvStr = w.bech32String(w.rich(st.Receiver, nil, hookDenom))
+		}
+		ra, rerr := sdk.AccAddressFromBech32(recvStr)
+		amt := st.Amount
+		if rerr == nil {
+			amt = symAmount(st.Amount, w.coinBal(common.BytesToAddress(ra), hookDenom))
+		}
+		parsed, okAmt := sdk.NewIntFromString(amt)
+		r.HookOK = okAmt && rerr == nil && len(ra) == 20
+		r.Denom, r.Amount = hookDenom, amt
+		if r.HookOK {
+			r.ReceiverHex, r.Amount = hex.EncodeToString(ra), parsed.String()
+		}
+		data := transfertypes.FungibleTokenPacketData{Denom: st.Denom, Amount: amt, Sender: "cosmos1sender", Receiver: recvStr}
+		packet := channeltypes.NewPacket(data.GetBytes(), 1, "transfer", "channel-7", "transfer", channel, clienttypes.NewHeight(0, 1000), 0)
+		ack := channeltypes.NewResultAcknowledgement([]byte{1})
+		cctx, write := w.ctx().CacheContext()
+		cctx = cctx.WithEventManager(sdk.NewEventManager())
+		panicked, val := hlib.Catch(func() { w.app.AggregateKeeper.OnRecvPacket(cctx, packet, ack) })
+		if panicked {
+			r.Class, r.Err = 2, val
+		} else {
+			write()
+			r.Class = 1
+			for _, ev := range cctx.EventManager().Events() {
+				if !strings.HasSuffix(ev.Type, "EventIBCAggregate") {
+					continue
+				}
+				for _, at := range ev.Attributes {
+					if string(at.Key) == "status" && strings.Trim(string(at.Value), "\"") == "STATUS_SUCCESS" {
+						r.Class = 0
+					}
+					if string(at.Key) == "message" {
+						r.Err = string(at.Value)
+						if len(r.Err) > 160 {
+							r.Err = r.Err[:160]
+						}
+					}
+				}
+			}
 		}
 	default:
 		r.Class, r.Err = 3, "unknown op "+st.Op
